@@ -76,6 +76,9 @@ impl Length for Tlv {
                 }
             }
             0x82 => {
+                if data.len() < 3 {
+                    return Err(ZVTError::IncompleteData);
+                }
                 let bytes: [u8; 2] = data[1..3]
                     .try_into()
                     .map_err(|_| ZVTError::IncompleteData)?;
